@@ -48,6 +48,8 @@ def gen_cases(tier, seed):
                 continue
             for irx, w in IR.template_weightings(T[name], ALPHA, b['recursive_free_entries'], dom):
                 yield ('R', name, dom, tuple(sorted((k, repr(v)) for k, v in w.items())))
+    for name in ('lin-ext', 'quad-ext', 'mutual', 'sibling-trivial'):
+        yield ('cli', name)
 
 
 def describe(case):
@@ -58,8 +60,35 @@ def describe(case):
     return {'case': list(case)}
 
 
+def cli_counts(name, r, case):
+    """The command-line tool's -g / -e output (gradients and expected counts w dZ/dw / Z of two factors given with -w)
+    against the API, whose gradients the rest of this check compares with the exact derivatives."""
+    import os, shutil, tempfile
+    from checks import c11_options as C11
+    T = IR.recursive_templates()[name]
+    tmp = tempfile.mkdtemp(prefix='c03cli_')
+    env = dict(os.environ)
+    env['PYTHONPATH'] = C11.REPO
+    try:
+        ws = list(IR.template_weightings(T, [Fraction(1, 4), Fraction(1, 8), Fraction(3, 16)], 3, 2))
+        for gi, (irx, w) in enumerate([ws[5 % len(ws)], ws[-2]]):
+            ir = dict(irx)
+            ir['w'] = w
+            status, mpv, rho = oracles.kleene_mp(ir, w)
+            if status != 'finite' or rho is None or rho > 0.9:
+                r.excl['cli: grammar not subcritical'] += 1
+                continue
+            g = IR.build_fgg(ir, 'real', 'float64', pres={'ids': 'asc'})
+            C11.cli_w_e(ir, g, gi, tmp, env, r, case)
+    finally:
+        shutil.rmtree(tmp, ignore_errors=True)
+
+
 def run_case(case):
     r = Res()
+    if case[0] == 'cli':
+        cli_counts(case[1], r, case)
+        return r
     if case[0] == 'A':
         sh = case[1]
         labs, edges, ext = sh
